@@ -382,13 +382,23 @@ impl Parser {
     }
 
     fn parse_callback(&mut self, tokens: TokenStream) -> Option<Callback> {
+        const NOT_A_CALLBACK: &str = "Expected a callback: a path to a function or a closure";
+
         let span = tokens.span();
+        // Whatever its form, a callback is an expression; tokens that are not one
+        // (`"a" = =`) would be pasted into the generated code as they are.
+        let is_expr = syn::parse2::<syn::Expr>(tokens.clone()).is_ok();
         let mut tokens = tokens.into_iter();
 
         if let Some(tt) = expect_punct(tokens.next(), '|') {
             let mut label = TokenStream::from(tt);
 
             label.extend(tokens);
+
+            if !is_expr {
+                self.err(NOT_A_CALLBACK, span);
+                return None;
+            }
 
             return Some(Callback::Label(label));
         }
@@ -432,6 +442,11 @@ impl Parser {
                 return None;
             }
         };
+
+        if !is_expr {
+            self.err(NOT_A_CALLBACK, span);
+            return None;
+        }
 
         let inline = InlineCallback { arg, body, span };
 
